@@ -220,6 +220,9 @@ StmtProds(h) ==
   \cup (IF "EmptySeq" \in Ctrl THEN {P(Nd("Seq", "n", <<>>, "", <<>>, <<>>), "", <<>>)} ELSE {})
   \cup (IF "If2" \in Ctrl THEN {P(Nd("If", "n", <<>>, "", <<>>, <<>>), "", <<C, Nn>>)} ELSE {})
   \cup (IF "If3" \in Ctrl THEN {P(Nd("If", "n", <<>>, "", <<>>, <<>>), "", <<C, S, S>>)} ELSE {})
+  \* one arm returns on every path, the other does not (If(c).Then(Return..).ElseIf(d).Then(Return..) without Else is an instance)
+  \cup (IF "If3" \in Ctrl /\ "IfMixed" \in Ctrl
+        THEN {P(Nd("If", "n", <<>>, "", <<>>, <<>>), "", <<C, H("r", lp, cd), S>>), P(Nd("If", "n", <<>>, "", <<>>, <<>>), "", <<C, S, H("r", lp, cd)>>)} ELSE {})
   \cup (IF "Cond2" \in Ctrl THEN {P(Nd("Cond", "n", <<>>, "", <<>>, <<>>), "", <<C, S, C, S>>)} ELSE {})
   \cup (IF "While" \in Ctrl THEN {P(Nd("While", "n", <<>>, "", <<>>, <<>>), "", <<C, H("n", lp + 1, cd)>>)} ELSE {})
   \cup (IF "For" \in Ctrl THEN {P(Nd("For", "n", <<>>, "", <<>>, <<>>), "", <<H("s", 0, cd), C, H("s", 0, cd), H("n", lp + 1, cd)>>)} ELSE {})
